@@ -235,6 +235,7 @@ func run(dir string, s Scenario, args []string, extraEnv ...string) cli.Res {
 		"OCTOSQL_PLUGIN_DIR=" + filepath.Join(dir, "plugins"),
 		"OCTOSQL_PLUGIN_TMP_DIR=" + filepath.Join(dir, "pt"),
 		"OCTOSQL_PLUGIN_REPOSITORY_OFFICIAL_URL=" + s.repoURL(),
+		"GOMAXPROCS=2", // short-lived processes: fewer runtime threads to start and tear down (inherited by the plugin process)
 	}, extraEnv...)
 	return cli.RunIn(dir, cli.Inv{Args: args, Env: env})
 }
